@@ -111,6 +111,21 @@ theorem enc_ok_length (K B C : List Nat) (h : Aes.enc K B = .ok C) : B.length = 
   · obtain ⟨e, he⟩ := enc_err_block (K := K) hb
     rw [he] at h; cases h
 
+/-- consequence for the standard itself (through the refinement lemmas of C02): FIPS 197 InvCipher inverts Cipher and
+    conversely, for every key of 16/24/32 bytes and every block -/
+theorem fips_roundtrip (K B : List Nat) (hK : KeyOk K) (hB : St B) :
+    Spec.Aes.invCipher K (Spec.Aes.cipher K B) = B ∧ Spec.Aes.cipher K (Spec.Aes.invCipher K B) = B := by
+  have hk := keysOk_of_key hK
+  have hNr : 1 ≤ K.length / 4 + 6 := by omega
+  have e := (keySchedule_spec_wf hK).1
+  unfold Spec.Aes.invCipher Spec.Aes.cipher
+  rw [← e]
+  obtain ⟨e1, s1⟩ := encW_spec hNr hk hB
+  obtain ⟨e2, s2⟩ := decW_spec hNr hk hB
+  constructor
+  · rw [← e1, ← (decW_spec hNr hk s1).1]; exact decW_encW hNr hk hB
+  · rw [← e2, ← (encW_spec hNr hk s2).1]; exact encW_decW hNr hk hB
+
 /-! ### non-vacuity -/
 
 example : KeyOk (List.replicate 16 0) ∧ KeyOk (List.replicate 24 255) ∧ KeyOk (List.range 32) ∧ St (List.range 16) := by
